@@ -22,6 +22,31 @@ from quri_parts.openfermion.ansatz import KUpCCGSD, TrotterUCCSD  # noqa: E402
 from quri_parts.openfermion.transforms import jordan_wigner  # noqa: E402
 
 
+def documented_call(cls, positional, **kw):
+    """Build cls either with keyword arguments or POSITIONALLY in the order its docstring documents (the `Args:` list):
+    callers written against the documentation pass arguments in that order."""
+    if not positional:
+        return cls(**kw)
+    import inspect
+    import re
+    doc = inspect.getdoc(cls) or ""
+    m = re.search(r"Args:\n(.*?)(\n\n|\Z)", doc, re.S)
+    names = re.findall(r"^\s{0,8}(\w+):", m.group(1), re.M) if m else []
+    if not names or not set(kw) <= set(names):
+        return cls(**kw)
+    last = max(names.index(k) for k in kw)
+    sig = inspect.signature(cls.__init__).parameters
+    args = []
+    for nm in names[:last + 1]:
+        if nm in kw:
+            args.append(kw[nm])
+        elif nm in sig and sig[nm].default is not inspect.Parameter.empty:
+            args.append(sig[nm].default)
+        else:
+            return cls(**kw)
+    return cls(*args)
+
+
 def main():
     a = O.std_args().parse_args()
     rng = random.Random(a.seed * 6011 + 31)
@@ -41,13 +66,17 @@ def main():
         if rng.random() < 0.7:
             ne = rng.randrange(2, n, 2) if singlet else rng.randint(1, n - 1)
             use_singles = rng.random() < 0.7
-            cfg = ["TrotterUCCSD", n, ne, trot, use_singles, singlet]
-            mk = lambda: TrotterUCCSD(n, ne, jordan_wigner, trotter_number=trot, use_singles=use_singles,  # noqa: E731
-                                      singlet_excitation=singlet)
+            pos = rng.random() < 0.5
+            cfg = ["TrotterUCCSD", n, ne, trot, use_singles, singlet, "positional" if pos else "keywords"]
+            mk = lambda: documented_call(TrotterUCCSD, pos, n_spin_orbitals=n, n_fermions=ne,  # noqa: E731
+                                         fermion_qubit_mapping=jordan_wigner, trotter_number=trot, use_singles=use_singles,
+                                         delta_sz=0, singlet_excitation=singlet)
         else:
             kk = rng.randint(1, 2)
-            cfg = ["KUpCCGSD", n, kk, trot, singlet]
-            mk = lambda: KUpCCGSD(n, kk, jordan_wigner, trotter_number=trot, singlet_excitation=singlet)  # noqa: E731
+            pos = rng.random() < 0.5
+            cfg = ["KUpCCGSD", n, kk, trot, singlet, "positional" if pos else "keywords"]
+            mk = lambda: documented_call(KUpCCGSD, pos, n_spin_orbitals=n, k=kk, fermion_qubit_mapping=jordan_wigner,  # noqa: E731
+                                         trotter_number=trot, delta_sz=0, singlet_excitation=singlet)
         res.count(tuple(cfg), bucket=cfg[0])
         try:
             ans = mk()
